@@ -111,6 +111,7 @@ def listby_post(n, sk, si, xs, ids, END):
         members_have_the_group_key=ForAll([g, p], Implies(And(0 <= g, g < G, start_of(END, g) <= p, p < END[g]), cmpf(sk[p], keys[g]) == 0)),
         rows_listed_in_sorted_order=ForAll([g, j], Implies(And(0 <= g, g < G, 0 <= j, j < rlen[g]), rows[g][j] == si[start_of(END, g) + j])),
         keys_strictly_increasing=ForAll([g, h], Implies(And(0 <= g, g < h, h < G), cmpf(keys[g], keys[h]) == -1)),
+        rows_of_a_group_in_original_order=ForAll([g, j, p], Implies(And(0 <= g, g < G, 0 <= j, j < p, p < rlen[g]), rows[g][j] < rows[g][p])),
         ends_increase=ForAll([g, h], Implies(And(0 <= g, g < h, h < G), END[g] < END[h])),
     )
 
@@ -136,108 +137,110 @@ def laws():
     return cmp_laws()
 
 
+# =============================================================== _listby body
+def listby_obligations(ctx, m):
+    fdef = m.func('dictable._listby')
+    loop = select(fdef, 'For#0')
+    app = [s for s in walk_no_defs(loop) if isinstance(s, ast.Expr) and isinstance(s.value, ast.Call)
+           and ast.unparse(s.value.func).endswith('.append') and isinstance(s.value.args[0], ast.Tuple)]
+    if len(app) != 1:
+        raise SelectorError('_listby: expected one `res.append((key, row))` inside the loop')
+    tbl = Table()
+    th = [tbl, Lists(), TypePreds()]
+    n_ = tbl.key_list('self').t
+
+    def names(st):
+        res, row, prev = st.env['res'], st.env['row'], st.env['prev']
+        srt = st.ghost['sorted']
+        return res, row, prev, srt.arrs[0], srt.arrs[1], st.ghost['END']
+
+    def inv(st, entry):
+        res, row, prev, sk, si, END = names(st)
+        k = st.ghost['_listby.For0.k']
+        n = st.ghost['_listby.For0.n']
+        if res.f.get('ety') is None:        # entry state: res = [], row = [], prev = None
+            G, rl = IntVal(0), IntVal(0)
+            keys = rlen = rows = ra = None
+        else:
+            G, rl = res.t, row.t
+            keys, rlen, rows = res.arrs
+            ra, = row.arrs
+        S = start_of(END, G)
+        g, h, j, p = Ints('g!inv h!inv j!inv p!inv')
+        cl = [('bounds', And(0 <= k, k <= n, G >= 0, 0 <= rl, rl <= k)),
+              ('nothing_before_first_pair', Implies(k == 0, And(rl == 0, G == 0))),
+              ('open_run_ends_at_k', S + rl == k)]
+        if keys is None:
+            return cl
+        pv = prev.t if prev.kind == 'val' else NONEV
+        cl += [('open_row_nonempty_and_prev_is_last_key', Implies(k > 0, And(rl >= 1, pv == sk[k - 1]))),
+               ('open_row_lists_sorted_ids', ForAll([j], Implies(And(0 <= j, j < rl), ra[j] == si[S + j]))),
+               ('open_run_has_one_key', ForAll([p], Implies(And(S <= p, p < k), cmpf(sk[p], sk[k - 1]) == 0))),
+               ('closed_groups_shape', ForAll([g], Implies(And(0 <= g, g < G),
+                                                           And(start_of(END, g) < END[g], END[g] <= S, rlen[g] == END[g] - start_of(END, g),
+                                                               keys[g] == sk[END[g] - 1])))),
+               ('closed_rows_list_sorted_ids', ForAll([g, j], Implies(And(0 <= g, g < G, 0 <= j, j < rlen[g]), rows[g][j] == si[start_of(END, g) + j]))),
+               ('closed_members_have_group_key', ForAll([g, p], Implies(And(0 <= g, g < G, start_of(END, g) <= p, p < END[g]), cmpf(sk[p], keys[g]) == 0))),
+               ('next_key_is_greater', ForAll([g], Implies(And(0 <= g, g < G), cmpf(keys[g], sk[END[g]]) == -1))),
+               ('ends_increase', ForAll([g, h], Implies(And(0 <= g, g < h, h < G), END[g] < END[h])))]
+        return cl
+
+    def ghost_havoc(ex, st):
+        st.ghost['END'] = IA(fresh_name('END'))
+
+    def after_append(ex, st, s):           # ghost: the group just closed ends at the current position k
+        res = st.env['res']
+        st.ghost['END'] = Store(st.ghost['END'], res.t - 1, st.ghost['_listby.For0.k'])
+
+    protos = dict(res=fresh_list(TUP(VAL, LIST(INT)), 'res'), row=fresh_list(INT, 'row'), prev=V(Const('prev!proto', Val)))
+    spec = LoopSpec('_listby.For0', inv, ghost_havoc=ghost_havoc, protos=protos)
+    ex = Exec(m, th, loops={id(loop): spec}, hooks=[(lambda s: s is app[0], after_append)], name='_listby', prune=PRUNE)
+    st = State(env={'self': tbl.table('self'), 'by': SV('colspec')})
+    st.pc += laws() + [n_ >= 1]
+    st.ghost['END'] = IA('END0')
+    # the final `res.append((prev, row))` after the loop closes the last group at n
+    outs = ex.run_block(st, [s for s in fdef.body if not (isinstance(s, ast.Expr) and isinstance(s.value, ast.Constant))])
+    ctx.absorb(ex)
+    ctx.record_function(m, 'dictable._listby', fdef, ex.stmts_executed, excluded=['empty table (n == 0): phantom group ((None,), ([],)) - bounded only'])
+    nret = 0
+    for out in outs:
+        if out.kind != 'return':
+            ctx.post('_listby.never_raises.%s' % out.val, ex.facts + out.st.pc, BoolVal(False), kind='safety')
+            continue
+        nret += 1
+        xs, ids = out.val.items
+        s2 = out.st
+        srt = s2.ghost['sorted']
+        END = Store(s2.ghost['END'], xs.t - 1, srt.t)          # the last append happens after the loop: ghost end = n
+        posts = listby_post(srt.t, srt.arrs[0], srt.arrs[1], xs, ids, END)
+        for cname, goal in posts.items():
+            if cname == 'keys_strictly_increasing':
+                continue
+            ctx.post('_listby.post.%s' % cname, ex.facts + s2.pc, goal)
+        # keys strictly increasing, for arbitrary g < h: key[g] = sk[END[g]-1] < sk[END[g]] <= sk[END[h]-1] = key[h]
+        g_, h_ = Ints('g!ksi h!ksi')
+        sk_, kk = srt.arrs[0], xs.arrs[0]
+        hint = [posts['ends_increase'], posts['group_key_is_a_member_key'], posts['groups_tile_all_rows'],
+                Implies(END[g_] < END[h_] - 1, cmpf(sk_[END[g_]], sk_[END[h_] - 1]) <= 0)]
+        ctx.post('_listby.post.keys_strictly_increasing', ex.facts + s2.pc + [0 <= g_, g_ < h_, h_ < xs.t] + hint, cmpf(kk[g_], kk[h_]) == -1)
+        # every row index 0..n-1 occurs in exactly one place of ids (sort returns a permutation, groups tile the sorted list)
+        inv_ = s2.ghost['perm_inv']
+        i = Int('i!part')
+        keys, = xs.arrs
+        ks = tbl.key_list('self')
+        ctx.post('_listby.post.every_row_is_listed_under_its_own_key', ex.facts + s2.pc + [0 <= i, i < srt.t],
+                 And(0 <= inv_[i], inv_[i] < srt.t, srt.arrs[1][inv_[i]] == i, srt.arrs[0][inv_[i]] == ks.arrs[0][i]))
+    if nret == 0:
+        raise OutOfSubset('_listby has no returning path')
+    ctx.cover('_listby.pre_satisfiable', laws() + [n_ >= 3])
+
+
 # ------------------------------------------------------------------------------------------------- build
 def build(ctx):
     m = ctx.mod('_dictable')
     ctx.trust('cmp laws (range, antisymmetry, transitivity) are hypotheses here: they are the subject of property C07')
 
-    # =============================================================== _listby body
-    def listby_section():
-        fdef = m.func('dictable._listby')
-        loop = select(fdef, 'For#0')
-        app = [s for s in walk_no_defs(loop) if isinstance(s, ast.Expr) and isinstance(s.value, ast.Call)
-               and ast.unparse(s.value.func).endswith('.append') and isinstance(s.value.args[0], ast.Tuple)]
-        if len(app) != 1:
-            raise SelectorError('_listby: expected one `res.append((key, row))` inside the loop')
-        tbl = Table()
-        th = [tbl, Lists(), TypePreds()]
-        n_ = tbl.key_list('self').t
-
-        def names(st):
-            res, row, prev = st.env['res'], st.env['row'], st.env['prev']
-            srt = st.ghost['sorted']
-            return res, row, prev, srt.arrs[0], srt.arrs[1], st.ghost['END']
-
-        def inv(st, entry):
-            res, row, prev, sk, si, END = names(st)
-            k = st.ghost['_listby.For0.k']
-            n = st.ghost['_listby.For0.n']
-            if res.f.get('ety') is None:        # entry state: res = [], row = [], prev = None
-                G, rl = IntVal(0), IntVal(0)
-                keys = rlen = rows = ra = None
-            else:
-                G, rl = res.t, row.t
-                keys, rlen, rows = res.arrs
-                ra, = row.arrs
-            S = start_of(END, G)
-            g, h, j, p = Ints('g!inv h!inv j!inv p!inv')
-            cl = [('bounds', And(0 <= k, k <= n, G >= 0, 0 <= rl, rl <= k)),
-                  ('nothing_before_first_pair', Implies(k == 0, And(rl == 0, G == 0))),
-                  ('open_run_ends_at_k', S + rl == k)]
-            if keys is None:
-                return cl
-            pv = prev.t if prev.kind == 'val' else NONEV
-            cl += [('open_row_nonempty_and_prev_is_last_key', Implies(k > 0, And(rl >= 1, pv == sk[k - 1]))),
-                   ('open_row_lists_sorted_ids', ForAll([j], Implies(And(0 <= j, j < rl), ra[j] == si[S + j]))),
-                   ('open_run_has_one_key', ForAll([p], Implies(And(S <= p, p < k), cmpf(sk[p], sk[k - 1]) == 0))),
-                   ('closed_groups_shape', ForAll([g], Implies(And(0 <= g, g < G),
-                                                               And(start_of(END, g) < END[g], END[g] <= S, rlen[g] == END[g] - start_of(END, g),
-                                                                   keys[g] == sk[END[g] - 1])))),
-                   ('closed_rows_list_sorted_ids', ForAll([g, j], Implies(And(0 <= g, g < G, 0 <= j, j < rlen[g]), rows[g][j] == si[start_of(END, g) + j]))),
-                   ('closed_members_have_group_key', ForAll([g, p], Implies(And(0 <= g, g < G, start_of(END, g) <= p, p < END[g]), cmpf(sk[p], keys[g]) == 0))),
-                   ('next_key_is_greater', ForAll([g], Implies(And(0 <= g, g < G), cmpf(keys[g], sk[END[g]]) == -1))),
-                   ('ends_increase', ForAll([g, h], Implies(And(0 <= g, g < h, h < G), END[g] < END[h])))]
-            return cl
-
-        def ghost_havoc(ex, st):
-            st.ghost['END'] = IA(fresh_name('END'))
-
-        def after_append(ex, st, s):           # ghost: the group just closed ends at the current position k
-            res = st.env['res']
-            st.ghost['END'] = Store(st.ghost['END'], res.t - 1, st.ghost['_listby.For0.k'])
-
-        protos = dict(res=fresh_list(TUP(VAL, LIST(INT)), 'res'), row=fresh_list(INT, 'row'), prev=V(Const('prev!proto', Val)))
-        spec = LoopSpec('_listby.For0', inv, ghost_havoc=ghost_havoc, protos=protos)
-        ex = Exec(m, th, loops={id(loop): spec}, hooks=[(lambda s: s is app[0], after_append)], name='_listby', prune=PRUNE)
-        st = State(env={'self': tbl.table('self'), 'by': SV('colspec')})
-        st.pc += laws() + [n_ >= 1]
-        st.ghost['END'] = IA('END0')
-        # the final `res.append((prev, row))` after the loop closes the last group at n
-        outs = ex.run_block(st, [s for s in fdef.body if not (isinstance(s, ast.Expr) and isinstance(s.value, ast.Constant))])
-        ctx.absorb(ex)
-        ctx.record_function(m, 'dictable._listby', fdef, ex.stmts_executed, excluded=['empty table (n == 0): phantom group ((None,), ([],)) - bounded only'])
-        nret = 0
-        for out in outs:
-            if out.kind != 'return':
-                ctx.post('_listby.never_raises.%s' % out.val, ex.facts + out.st.pc, BoolVal(False), kind='safety')
-                continue
-            nret += 1
-            xs, ids = out.val.items
-            s2 = out.st
-            srt = s2.ghost['sorted']
-            END = Store(s2.ghost['END'], xs.t - 1, srt.t)          # the last append happens after the loop: ghost end = n
-            posts = listby_post(srt.t, srt.arrs[0], srt.arrs[1], xs, ids, END)
-            for cname, goal in posts.items():
-                if cname == 'keys_strictly_increasing':
-                    continue
-                ctx.post('_listby.post.%s' % cname, ex.facts + s2.pc, goal)
-            # keys strictly increasing, for arbitrary g < h: key[g] = sk[END[g]-1] < sk[END[g]] <= sk[END[h]-1] = key[h]
-            g_, h_ = Ints('g!ksi h!ksi')
-            sk_, kk = srt.arrs[0], xs.arrs[0]
-            hint = [posts['ends_increase'], posts['group_key_is_a_member_key'], posts['groups_tile_all_rows'],
-                    Implies(END[g_] < END[h_] - 1, cmpf(sk_[END[g_]], sk_[END[h_] - 1]) <= 0)]
-            ctx.post('_listby.post.keys_strictly_increasing', ex.facts + s2.pc + [0 <= g_, g_ < h_, h_ < xs.t] + hint, cmpf(kk[g_], kk[h_]) == -1)
-            # every row index 0..n-1 occurs in exactly one place of ids (sort returns a permutation, groups tile the sorted list)
-            inv_ = s2.ghost['perm_inv']
-            i = Int('i!part')
-            keys, = xs.arrs
-            ks = tbl.key_list('self')
-            ctx.post('_listby.post.every_row_is_listed_under_its_own_key', ex.facts + s2.pc + [0 <= i, i < srt.t],
-                     And(0 <= inv_[i], inv_[i] < srt.t, srt.arrs[1][inv_[i]] == i, srt.arrs[0][inv_[i]] == ks.arrs[0][i]))
-        if nret == 0:
-            raise OutOfSubset('_listby has no returning path')
-        ctx.cover('_listby.pre_satisfiable', laws() + [n_ >= 3])
-    ctx.guarded('_listby', listby_section)
+    ctx.guarded('_listby', lambda: listby_obligations(ctx, m))
 
     # =============================================================== join: group merge loop
     def merge_inv(kind, tbl):
